@@ -66,3 +66,15 @@ Definition chk_sub (c : sub_case) : bool :=
   | SFresh _, None => true
   | _, _ => false
   end.
+
+(* ---- what the registration endpoint stores for a client that registered itself (Registration.client_registration_setup
+   / _verify_sector_identifier): subject_type as asked, and for a sector_identifier_uri that passed verification both
+   sector_identifier_uri and sector_id = that very URI (not its host: Authorization._subject_args takes the host later) ---- *)
+Definition registered_record (asked_type asked_sector : option pystr) : creg :=
+  mkCreg asked_type (match truthy asked_sector with Some u => Some u | None => None end) asked_sector.
+Definition creg_eqb (a b : creg) : bool :=
+  let oe := fun x y => match truthy x, truthy y with Some p, Some q => str_eqb p q | None, None => true | _, _ => false end in
+  oe (r_subject_type a) (r_subject_type b) && oe (r_sector_id a) (r_sector_id b) && oe (r_sector_uri a) (r_sector_uri b).
+(* case: asked subject_type, asked sector_identifier_uri, the record found in the client database afterwards *)
+Definition chk_registered (c : option pystr * option pystr * creg) : bool :=
+  let '(t, s, stored) := c in creg_eqb (registered_record t s) stored.
